@@ -13,10 +13,14 @@ import (
 	"os"
 	"runtime"
 	"strconv"
+	"strings"
+	"syscall"
 	"testing"
 	"time"
 
+	"github.com/mattn/anko/core"
 	"github.com/mattn/anko/env"
+	_ "github.com/mattn/anko/packages"
 	"github.com/mattn/anko/vm"
 
 	"verifsim/harness"
@@ -150,6 +154,16 @@ func TestRaceC02(t *testing.T) {
 	rounds := 0
 	r := uint64(seed)*2654435761 + 12345
 	next := func(n int) int { r = r*6364136223846793005 + 1442695040888963407; return int((r >> 33) % uint64(n)) }
+	unwinds := 0
+	t0 := time.Now()
+	for k := 0; k < 3; k++ {
+		if !deepUnwind(t, 15000+next(25000), k) {
+			return
+		}
+		unwinds++
+	}
+	fmt.Printf("deep unwinds took %v\n", time.Since(t0))
+	end = time.Now().Add(d) // the racing rounds keep their full budget
 	for time.Now().Before(end) {
 		runtime.GOMAXPROCS([]int{2, 4, 8, 16}[next(4)])
 		capacity := next(4)
@@ -192,5 +206,160 @@ func TestRaceC02(t *testing.T) {
 		}
 		rounds++
 	}
-	report(map[string]any{"rounds": rounds, "seconds": d.Seconds()})
+	report(map[string]any{"rounds": rounds, "seconds": d.Seconds(), "deep_unwinds": unwinds})
+}
+
+func cpuTime() time.Duration {
+	var ru syscall.Rusage
+	syscall.Getrusage(syscall.RUSAGE_SELF, &ru)
+	return time.Duration(ru.Utime.Nano() + ru.Stime.Nano())
+}
+
+// deepUnwind: the cancellation lands while the script is `depth` script-function calls deep. The time to
+// return must be short whatever the depth. It is judged in CPU time of this process (nothing else runs in it
+// meanwhile), which a loaded machine cannot inflate, and against a bound two orders of magnitude above what
+// unwinding 40000 frames costs.
+func deepUnwind(t *testing.T, depth int, form int) bool {
+	bottoms := []string{"close(ready)\nv = <-block\nreturn v", "close(ready)\nfor { tick() }", "close(ready)\nblock <- 1\nreturn 0"}
+	frames := []string{"return down(n - 1) + 1", "defer tick()\nreturn down(n - 1) + 1", "x = down(n - 1)\nreturn x"}
+	src := "func down(n) {\nif n == 0 {\n" + bottoms[form%len(bottoms)] + "\n}\n" + frames[form%len(frames)] + "\n}\ndown(depth)\n"
+	e := env.NewEnv()
+	ready := make(chan struct{})
+	e.Define("ready", ready)
+	e.Define("block", make(chan int64))
+	e.Define("depth", int64(depth))
+	e.Define("tick", func() {})
+	ctx, cancel := context.WithCancel(context.Background())
+	defer cancel()
+	done := make(chan error, 1)
+	go func() {
+		_, err := vm.ExecuteContext(ctx, e, &vm.Options{Debug: false}, src)
+		done <- err
+	}()
+	select {
+	case <-ready:
+	case err := <-done:
+		// not this property's business (e.g. a recursion limit): nothing to measure
+		_ = err
+		return true
+	case <-time.After(120 * time.Second):
+		return true
+	}
+	time.Sleep(5 * time.Millisecond)
+	c0 := cpuTime()
+	cancel()
+	const bound = 4 * time.Second
+	for {
+		select {
+		case err := <-done:
+			if err == nil || err.Error() != "execution interrupted" {
+				fmt.Printf("REAL-LEG VIOLATION class=interrupt-swallowed\na call cancelled %d script calls deep returned error %v instead of \"execution interrupted\"\n%s\n", depth, err, src)
+				t.FailNow()
+			}
+			if used := cpuTime() - c0; used > bound {
+				fmt.Printf("REAL-LEG VIOLATION class=cancel-slow\na call cancelled %d script calls deep needed %v of CPU time to return (bound %v): returning after cancellation must not grow faster than the depth\n%s\n", depth, used, bound, src)
+				t.FailNow()
+			}
+			fmt.Printf("deep unwind: depth %d form %d: %v of CPU time from cancel to return\n", depth, form, cpuTime()-c0)
+			return true
+		case <-time.After(200 * time.Millisecond):
+			if used := cpuTime() - c0; used > 10*bound {
+				fmt.Printf("REAL-LEG VIOLATION class=cancel-slow\na call cancelled %d script calls deep has not returned after %v of CPU time (bound %v)\n%s\n", depth, used, bound, src)
+				t.FailNow()
+			}
+		}
+	}
+}
+
+// TestRaceC01 is the real-thread leg of C01 (built WITHOUT the race detector): script goroutines that share no
+// container each run a battery of constructs with identifiers, struct shapes, type names and patterns that no
+// earlier round has used, so that whatever the interpreter does on first use of a shape happens on several
+// threads at once. Nothing is judged but what C01 states: every call returns, no panic reaches the caller,
+// and the process survives (a fatal runtime error such as "concurrent map writes" kills this process; the
+// driver reports that as process-crash). Data races as such are C14's business, not this leg's.
+func TestRaceC01(t *testing.T) {
+	seed, d := budget()
+	end := time.Now().Add(d)
+	defer runtime.GOMAXPROCS(runtime.GOMAXPROCS(0))
+	r := uint64(seed)*2654435761 + 99991
+	next := func(n int) int { r = r*6364136223846793005 + 1442695040888963407; return int((r >> 33) % uint64(n)) }
+	rounds, timeouts, scriptErrs := 0, 0, 0
+	for round := 0; time.Now().Before(end); round++ {
+		runtime.GOMAXPROCS([]int{2, 4, 8, 16}[next(4)])
+		k := 2 + next(7)
+		var b strings.Builder
+		fmt.Fprintf(&b, "done = make(chan int64, %d)\nnerr = make(chan int64, %d)\n", k, 64*k)
+		for g := 0; g < k; g++ {
+			u := fmt.Sprintf("%d_%d_%d", seed, round, g)
+			if next(3) == 0 {
+				// sometimes the same shapes on several goroutines of the round
+				u = fmt.Sprintf("%d_%d_s", seed, round)
+			}
+			b.WriteString("go func() {\ndefer func() { done <- 1 }()\n")
+			nb := 3 + next(6)
+			for j := 0; j < nb; j++ {
+				b.WriteString("try {\n" + c01Battery(next(c01Batteries), u, fmt.Sprintf("%d_%d", g, j)) + "\n} catch e { nerr <- 1 }\n")
+			}
+			b.WriteString("}()\n")
+		}
+		fmt.Fprintf(&b, "for i = 0; i < %d; i++ { <-done }\nlen(nerr)\n", k)
+		src := b.String()
+		e := env.NewEnv()
+		core.Import(e)
+		ctx, cancel := context.WithTimeout(context.Background(), 60*time.Second)
+		var val interface{}
+		var err error
+		func() {
+			defer func() {
+				if x := recover(); x != nil {
+					fmt.Printf("REAL-LEG VIOLATION class=panic-reached-host\na Go panic left ExecuteContext (Debug=false): %v\n%s\n", x, src)
+					t.FailNow()
+				}
+			}()
+			val, err = vm.ExecuteContext(ctx, e, &vm.Options{Debug: false}, src)
+		}()
+		if ctx.Err() != nil {
+			timeouts++ // termination is not what C01 states
+		} else if err != nil {
+			scriptErrs++
+		} else if n, _ := val.(int64); n > 0 {
+			scriptErrs += int(n)
+		}
+		cancel()
+		rounds++
+	}
+	report(map[string]any{"rounds": rounds, "seconds": d.Seconds(), "timeouts": timeouts, "script_errors_caught": scriptErrs})
+}
+
+const c01Batteries = 12
+
+// c01Battery returns statements using only names that end in the goroutine-unique suffix v (variables) and
+// shapes that depend on u (fresh per round, sometimes shared by the goroutines of one round).
+func c01Battery(k int, u, v string) string {
+	switch k % c01Batteries {
+	case 0:
+		return "s" + v + " = make(struct { A" + u + " int64, M" + u + " map[string]int64 })\ns" + v + ".A" + u + " = 1\ns" + v + ".M" + u + "[\"k\"] = 2\nx" + v + " = s" + v + ".A" + u + " + s" + v + ".M" + u + "[\"k\"]"
+	case 1:
+		return "func() {\nmake(type T" + u + ", make(struct { B" + u + " string }))\nt" + v + " = make(T" + u + ")\nt" + v + ".B" + u + " = \"x\"\np" + v + " = new(T" + u + ")\np" + v + ".B" + u + " = \"y\"\nreturn p" + v + ".B" + u + "\n}()"
+	case 2:
+		return "l" + v + " = make([]map[string][]int64, 2)\nc" + v + " = make(chan struct { C" + u + " int64 }, 1)\nc" + v + " <- make(struct { C" + u + " int64 })\nw" + v + " = <-c" + v + "\nw" + v + ".C" + u
+	case 3:
+		return "func() {\nmodule M" + v + " {\nv = 1\nfunc get() { return v }\n}\nreturn M" + v + ".get()\n}()"
+	case 4:
+		return "st" + v + " = import(\"strings\")\nst" + v + ".ToUpper(\"a" + u + "\")\nre" + v + " = import(\"regexp\")\nre" + v + ".MustCompile(\"a" + u + "+\").MatchString(\"a" + u + "\")"
+	case 5:
+		return "func() {\nfunc f" + v + "(a, b, c...) { return a + b + len(c) }\nf" + v + "(1, 2, 3, 4)\nfunc(x) { return x }(5)\nfunc g" + v + "(a, b, c, d, e) { defer func() { }(); return a }\nreturn g" + v + "(1, 2, 3, 4, 5)\n}()"
+	case 6:
+		return "try { throw \"e" + u + "\" } catch e" + v + " { }\ntry { [1][5] } catch e" + v + " { }\ny" + v + " = nil ?? 5"
+	case 7:
+		return "toString(1)\ntoInt(\"5\")\nkeys({\"a" + u + "\": 1})\nfor i" + v + " in range(3) { }\ntypeOf(1.5)\nkindOf(\"s\")"
+	case 8:
+		return "so" + v + " = import(\"sort\")\nl" + v + " = [3, 1, 2]\nso" + v + ".Slice(l" + v + ", func(i, j) { return l" + v + "[i] < l" + v + "[j] })\nl" + v + "[0]"
+	case 9:
+		return "n" + v + " = 5\nswitch n" + v + " {\ncase 1, 2:\nn" + v + "++\ncase 5:\nn" + v + " += 2\ndefault:\nn" + v + "--\n}\nq" + v + " = &n" + v + "\n*q" + v + " = 6\nz" + v + " = n" + v + " > 5 ? \"a\" : \"b\""
+	case 10:
+		return "a" + v + " = [1, 2, 3]\na" + v + " += 4\nb" + v + " = a" + v + "[1:3]\ns" + v + " = \"abc\" + 1\ns" + v + "[1:2]\nm" + v + " = {\"k" + u + "\": [1, {\"z\": 2}]}\nm" + v + ".k" + u + "[1].z\ndelete(m" + v + ", \"k" + u + "\")"
+	default:
+		return "p" + v + " = new(struct { P" + u + " *struct { Q" + u + " int64 } })\ntry { p" + v + ".P" + u + ".Q" + u + " } catch e" + v + " { }\nf" + v + " = import(\"fmt\")\nf" + v + ".Sprintf(\"%v-%v\", 1, \"" + u + "\")\nt" + v + " = import(\"time\")\nt" + v + ".Now().Unix()"
+	}
 }
